@@ -3,8 +3,8 @@
 # usage: tools/confirm_mutation.sh <Cxx> <m1|m2> [extra cargo test args for the demo, e.g. --features gzip]
 set -u
 ID="$1"; M="$2"; shift; shift
-WT="/tmp/mut/$ID"; OUT="$WT/_out"
-NAME="seeded_${ID}_${M}"
+WT="${WT:-/tmp/mut/$ID}"; OUT="$WT/_out"; TAG="${TAG:-}"
+NAME="seeded_${ID}_${TAG}${M}"
 cd "$WT" || exit 2
 export CARGO_NET_OFFLINE=true
 git checkout -q -- src 2>/dev/null
@@ -29,7 +29,7 @@ SUITE_OK=0
 grep -q "54 passed; 1 failed" /tmp/mut/${NAME}.suite.log && [ "$(grep -c 'FAILED' /tmp/mut/${NAME}.suite.log)" = "2" ] && SUITE_OK=1
 echo "clean_demo_exit=$CLEAN mutated_demo_exit=$MUT suite_ok=$SUITE_OK"
 if [ $CLEAN -eq 0 ] && [ $MUT -ne 0 ] && [ $SUITE_OK -eq 1 ]; then
-  D="/verif/seeded/${ID}-${M}"; mkdir -p "$D"
+  D="/verif/seeded/${ID}-${TAG}${M}"; mkdir -p "$D"
   cp "$OUT/$M.diff" "$D/patch.diff"; cp "$OUT/${M}_demo.rs" "$D/demo.rs"
   python3 - "$OUT/${M}_meta.json" "$D/meta.json" "$ID" "$*" <<'PY'
 import json,sys
